@@ -67,6 +67,7 @@ PROP = {  # subject prefix -> (properties, what failed before the repair)
  "partial sums of key chunks are added plainly": ("C03 C12 C01", "on chunk-factorized keys a chunk's int64 / timedelta partial sum equal to -2**63 was dropped by the nansum merge: GroupBy(pa.chunked_array([[5,5],[3,3],[4,3]])).sum([5,9,-2**62,-2**62,7,1]) gave {3: 1} instead of {3: -2**63+1} (whole keys); found through the side condition sum_closed that the Coq proof of the chunk merge had to assume"),
  "nanops adds the partial sums of the pieces without looking for nulls": ("C20", "nanops.nansum(np.array([-2**62, -2**62, 5, 1]), n_threads=2) gave 6 instead of -2**63+6 (NumPy; n_threads=1): a piece's int64 partial sum equal to the sentinel was skipped by the second stage; found through the side condition sum_closed the Coq proof needed"),
  "keys converted to Python objects skip the jitted run detector": ("C02", "GroupBy(pa.chunked_array of booleans with a null) raised numba TypingError in the monotonic run detector"),
+ "quantile with a list of q and apply of a vector-valued function accept Arrow-backed keys": ("C16", "GroupBy(pl.Series(['a','b','a'])).quantile(v, [0.5]) (any polars / pyarrow / ArrowDtype key; also apply of a vector-valued function) raised AttributeError: 'Index' object has no attribute 'dictionary_encode'"),
  "Arrow / polars date keys on the chunk-factorized route": ("C02 C03 C12", "a date32 / date64 key (polars Date, Arrow dates) as a pyarrow ChunkedArray or of >= 1M rows raised ArrowNotImplementedError (Unsupported cast from int64 to date32) on the chunk-factorized route"),
  "time-zone aware datetime keys keep their zone": ("C02 C03 C12", "a tz-aware datetime key as a pyarrow ChunkedArray (or of >= 1M rows): labels came back as naive UTC timestamps on the chunk-factorized route, and the constructor raised TypeError / ValueError with an increasing prefix or a null"),
  "keys whose cartesian product of label counts exceeds 64 bits": ("C02", "GroupBy of four keys with 70000 labels each: the mixed-radix weights (np.cumprod in int64) wrapped around and the rows (0,0,5,20000) and (0,0,6,3781) received the same group code; three keys of 2.1 million labels each raised ValueError (negative dimensions)"),
